@@ -22,7 +22,8 @@ subprocess.run(["git", "-C", "/repo", "apply", os.path.join(d, "patch.diff")], c
 t0 = time.time()
 try:
     p = subprocess.run(["python3", os.path.join(ROOT, "run.py"), pid, "--tier", tier] + extra, cwd=ROOT, capture_output=True, text=True,
-                       env=dict(os.environ, VERIF_EVIDENCE_DIR=os.path.join(ROOT, ".cache", "seeded-evidence")))
+                       env=dict(os.environ, VERIF_EVIDENCE_DIR=os.path.join(ROOT, ".cache", "seeded-evidence"),
+                                VERIF_REPLAY_DIR=os.path.join(ROOT, ".cache", "seeded-replays")))
 finally:
     subprocess.run(["git", "-C", "/repo", "checkout", "--", "."], check=True)
 out = p.stdout + p.stderr
